@@ -615,7 +615,7 @@ def _read(world, rec, ctx):
     elif what == "dir":
         d = dir(o)
         ctx.extra["dir"] = d
-        ctx.result_scalar = ("dir", len(d))
+        ctx.result_scalar = ("dir", len(set(d) - set(object.__dir__(o))))    # advertised names only
     elif what == "colnames":
         ctx.result_scalar = ("colnames", tuple(V.tv(n) for n in o.column_names()))
     elif what == "peek":
